@@ -344,3 +344,62 @@ def generate_moved(seed, tier, n=None, pcap=False):
     rng = random.Random(seed * 49979687 + 13)
     n = n or (40 if tier == "quick" else 1500)
     return [moved_scenario(rng, "mv%d" % i, pcap) for i in range(n)]
+
+
+# ---------------------------------------------------------------------------------- capture (C19 stage 2)
+def generate_drop_pcap(seed, tier, n=None):
+    """the `drop` family with capture on: a scripted dropper on the writer's outgoing route drops a non-empty
+    subset of the first data segments, so retransmissions are certain (one record per retransmitted segment,
+    the sequence field advanced by the re-sent bytes)"""
+    rng = random.Random(seed * 86028121 + 29)
+    n = n or (40 if tier == "quick" else 1000)
+    subsets = [s for k in range(1, 5) for s in itertools.combinations(range(8), k)]
+    out = []
+    for i in range(n):
+        txt = drop_scenario(rng, "dp%d" % i, rng.choice(subsets), reverse=(i % 2 == 1))
+        out.append(txt.replace("\ndo ", "\npcap on\ndo ", 1))
+    return out
+
+
+def reuse_pcap_scenario(rng, sid):
+    """two connections one after the other on the SAME socket objects (the client object closed, re-opened
+    and connected again; the acceptor accepting into the same server object) and, in 60 %, on the same
+    4-tuple (the client re-binds the same port): both sides write on both connections, so the capture's
+    sequence numbers must start at zero again in each direction (a byte counter kept in the socket object,
+    or per 4-tuple, would go on counting)"""
+    mss = rng.choice([500, 1475, 1475])
+    cfg = fixed_cfg(rng, drop_cli=rng.choice([None, None, {2}, {1, 3}]), drop_srv=rng.choice([None, None, {1}, {0, 2}]),
+                    mtu=mss, slow=rng.random() < 0.3, nat=rng.random() < 0.3)
+    cfg.lines.append("pcap on")
+    P = Prog(rng)
+    a = P.acc(); ss = P.sock(); cs = P.sock()
+    for op in ("%s.new n0" % a, "%s.open v4" % a, "%s.bind 10.0.0.1:8000" % a, "%s.listen" % a, "%s.new n0" % ss, "%s.new n1" % cs):
+        P.do("top", op)
+    cport = 5000 if rng.random() < 0.6 else 0
+    ctx = "top"; stream = 40
+    for k in range(2):
+        hacc = P.h(); hcon = P.h()
+        if k == 1:
+            P.do(ctx, "%s.close" % cs)
+            if rng.random() < 0.6: P.do(ctx, "%s.close" % ss)
+        P.do(ctx, "%s.%s %s h%d" % (a, rng.choice(["accept", "accept_ep"]), ss, hacc))
+        P.do(ctx, "%s.open v4" % cs); P.do(ctx, "%s.bind 10.0.1.1:%d" % (cs, cport))
+        P.do(ctx, "%s.connect 10.0.0.1:8000 h%d" % (cs, hcon))
+        for c, s in (("h%d" % hcon, cs), ("h%d" % hacc, ss)):
+            P.do(c, "%s.local" % s); P.do(c, "%s.remote" % s)
+        tc = rng.choice([5, 6, 8]) * mss + rng.choice([0, 1, 700])      # >= 5 segments: the dropper's ordinals fall on data
+        ts = rng.choice([1, 700, 3 * mss, 5 * mss + 1])
+        wend = writer(rng, P, cs, "h%d" % hcon, stream, tc, [mss, 2 * mss, 3 * mss + 1, tc], bufs=(1, 1, 2))
+        writer(rng, P, ss, "h%d" % hacc, stream + 1, ts, [mss, 2 * mss, ts], bufs=(1, 1, 2))
+        reader(rng, P, ss, "h%d" % hacc, tc // mss + 4, [65536, 4096], nb_p=0.1, at_p=0.0)
+        reader(rng, P, cs, "h%d" % hcon, ts // mss + 3, [65536, 4096], nb_p=0.1, at_p=0.0)
+        if k == 0 and rng.random() < 0.6: P.do(wend, "%s.close" % cs)        # the closing segment of the first connection
+        stream += 2
+        if k == 0: ctx = P.at(rng.choice([2000000000, 5000000000]))
+    return finish(sid, cfg, P)
+
+
+def generate_reuse_pcap(seed, tier, n=None):
+    rng = random.Random(seed * 67867967 + 31)
+    n = n or (40 if tier == "quick" else 1000)
+    return [reuse_pcap_scenario(rng, "rp%d" % i) for i in range(n)]
